@@ -1743,6 +1743,9 @@ namespace bloch::runtime {
                     break;
             }
         }
+        // 'return this;' in the body only names the object under construction. Left in
+        // m_returnValue it would keep the object alive after its last reference is gone.
+        m_returnValue = {};
         if (kTraceConstructors) {
             std::cerr << "[ctor] " << cls->name << " done" << std::endl;
         }
